@@ -68,6 +68,33 @@ Inv_C11 == NoTimes(R!Rebuild(R!EmptyState, tickLog, now)) = NoTimes(bs)
 (* C12 (stability clause): one serialisation round trip is a fixed point *)
 Inv_C12c == R!RoundTrip(R!RoundTrip(bs)) = R!RoundTrip(bs)
 
+(* C12 at design level: a PauseResume step keeps every piece of unfinished work.  Per step: the multiset of input      *)
+(* events queued or in progress, the collect buffers and the waiter ids are the same before and after; after it every   *)
+(* step with queued work runs at its worker limit (Inv_C03a at the next wait point says the same, this is immediate).   *)
+WorkOf(b, s) == [u \in {b.steps[s].queue[i].uid : i \in 1..Len(b.steps[s].queue)} \cup {b.steps[s].ip[i].uid : i \in 1..Len(b.steps[s].ip)} |->
+                   Cardinality({i \in 1..Len(b.steps[s].queue) : b.steps[s].queue[i].uid = u})
+                   + Cardinality({i \in 1..Len(b.steps[s].ip) : b.steps[s].ip[i].uid = u})]
+WaiterIds(b, s) == {b.steps[s].waiters[i].id : i \in 1..Len(b.steps[s].waiters)}
+IsResumeStep == mon'.nres = mon.nres + 1
+Act_C12_WorkKept == [][IsResumeStep => \A s \in StepsOf :
+                          /\ WorkOf(bs', s) = WorkOf(bs, s)
+                          /\ bs'.steps[s].coll = bs.steps[s].coll
+                          /\ WaiterIds(bs', s) = WaiterIds(bs, s)
+                          /\ (bs'.steps[s].queue # <<>> => Len(bs'.steps[s].ip) = R!Nw(s))]_vars
+(* ... and the retry counts of work that was QUEUED travel with it (work that was RUNNING restarts at 0: recorded finding) *)
+Act_C12_QueuedAttemptsKept == [][IsResumeStep => \A s \in StepsOf : \A i \in 1..Len(bs.steps[s].queue) :
+                          LET a == bs.steps[s].queue[i] IN
+                          a.att >= 1 => \/ \E j \in 1..Len(bs'.steps[s].queue) : bs'.steps[s].queue[j].uid = a.uid /\ bs'.steps[s].queue[j].att = a.att
+                                        \/ \E j \in 1..Len(bs'.steps[s].ip) : bs'.steps[s].ip[j].uid = a.uid /\ bs'.steps[s].ip[j].att = a.att]_vars
+(* strict forms the code does not meet today (the sanity configurations expect TLC to refute them):                     *)
+(*   a retry waiting out its delay in the runner's timer heap is not part of the serialised form                         *)
+Act_C12_TimersKept == [][IsResumeStep => \A w \in wake : w.tick.k = "add" => \E v \in wake' : v.tick = w.tick]_vars
+(*   work that was running restarts with attempt number 0                                                                *)
+Act_C12_RunningAttemptsKept == [][IsResumeStep => \A s \in StepsOf : \A i \in 1..Len(bs.steps[s].ip) :
+                          LET a == bs.steps[s].ip[i] IN
+                          a.att >= 1 => \/ \E j \in 1..Len(bs'.steps[s].queue) : bs'.steps[s].queue[j].uid = a.uid /\ bs'.steps[s].queue[j].att = a.att
+                                        \/ \E j \in 1..Len(bs'.steps[s].ip) : bs'.steps[s].ip[j].uid = a.uid /\ bs'.steps[s].ip[j].att = a.att]_vars
+
 (* C06: retry k (k = 1, 2, ...) starts no earlier than the documented delay for that retry after failure k *)
 Inv_C06 == ~mon.early
 
